@@ -61,8 +61,13 @@ class Iv:
         return Iv(lo, hi, lo_open, hi_open)
 
     def __add__(self, o):
-        return Iv(self.lo + o.lo, self.hi + o.hi, self.lo_open or o.lo_open,
-                  self.hi_open or o.hi_open)
+        # floating-point addition rounds to nearest: an open end of the exact result can be
+        # attained (tiny + 1.0 == 1.0), so the sum's ends are closed unless an operand is the
+        # exact constant 0
+        if (o.lo == o.hi == 0.0) or (self.lo == self.hi == 0.0):
+            other = self if o.lo == o.hi == 0.0 else o
+            return Iv(other.lo, other.hi, other.lo_open, other.hi_open)
+        return Iv(self.lo + o.lo, self.hi + o.hi, False, False)
 
     def neg(self):
         return Iv(-self.hi, -self.lo, self.hi_open, self.lo_open)
@@ -151,6 +156,7 @@ class ShiftEval:
         self.centers = centers_iv
         self.col = UNIT                 # current abstract value of the column
         self.premod = []                # linear forms of the operands of the first reduction
+        self.shift_form = None          # linear form column + b*centre + c that is applied
 
     def is_col(self, e):
         """points_t[:, dim] / points_t[..., dim]"""
@@ -202,7 +208,10 @@ class ShiftEval:
         if isinstance(e, ast.BinOp):
             (a, la), (b, lb) = self.ev(e.left), self.ev(e.right)
             if isinstance(e.op, ast.Add):
-                return a + b, (la + lb if la and lb else None)
+                ln = la + lb if la and lb else None
+                if ln is not None and ln.a == 1.0 and ln.b != 0:
+                    self.shift_form = ln        # column +/- centre +/- const: the applied shift
+                return a + b, ln
             if isinstance(e.op, ast.Sub):
                 # x - np.floor(x)
                 if isinstance(e.right, ast.Call) and dotted(e.right.func) in (
@@ -210,7 +219,10 @@ class ShiftEval:
                         unparse(e.right.args[0]) == unparse(e.left):
                     self.premod.append(la)
                     return a.frac(), None
-                return a - b, (la + lb.scale(-1) if la and lb else None)
+                ln = la + lb.scale(-1) if la and lb else None
+                if ln is not None and ln.a == 1.0 and ln.b != 0:
+                    self.shift_form = ln
+                return a - b, ln
             if isinstance(e.op, ast.Mult):
                 ln = None
                 if la and lb:
@@ -333,6 +345,21 @@ class ShiftEval:
             def ev_with(arm, xv):
                 if unparse(arm) == unparse(x):
                     return xv
+                # evaluate the arm with x refined by the branch condition
+                if isinstance(x, ast.Name) and x.id in self.env:
+                    old_ = self.env[x.id]
+                    self.env[x.id] = (xv, old_[1])
+                    try:
+                        return self.ev(arm)[0]
+                    finally:
+                        self.env[x.id] = old_
+                if self.is_col(x):
+                    old_ = self.col
+                    self.col = xv
+                    try:
+                        return self.ev(arm)[0]
+                    finally:
+                        self.col = old_
                 return self.ev(arm)[0]
             return ev_with(a, xt).hull(ev_with(b, xf))
         return self.ev(a)[0].hull(self.ev(b)[0])
@@ -437,9 +464,11 @@ def rule_M6(ctx, rid='M6'):
                       and isinstance(sl.elts[1], ast.Name) and sl.elts[1].id == idx_var and
                       isinstance(sl.elts[0], (ast.Slice, ast.Constant)))
             ctx.ob(rid, 'PhaseShift.transform:periodic-columns-only', col_ok, f.where(s),
-                   'store targets a column index drawn from self.periodic' if col_ok else
-                   'store `%s` is not restricted to a column drawn from self.periodic'
-                   % unparse(s.targets[0]))
+                   'store targets column periodic[i], paired with centers[i] by iterating '
+                   'self.periodic itself' if col_ok else
+                   'store `%s`: the loop `%s` does not iterate self.periodic itself (in order), '
+                   'so the column is not periodic[i] for the centers[i] that is applied'
+                   % (unparse(s.targets[0]), unparse(it)))
         if idx_var is None:
             continue
         lin = {}
@@ -484,7 +513,7 @@ def rule_M6(ctx, rid='M6'):
                        '' if ok else ' (a sum that may be negative reduced with a single `% 1` '
                        'can round to exactly 1.0)'),
                    {'centers': repr(centers), 'result': repr(se.col)})
-            lin[direction] = [p.tup() if p is not None else None for p in se.premod[:1]]
+            lin[direction] = [se.shift_form.tup()] if se.shift_form is not None else []
         # (d) forward and inverse are opposite shifts of the same magnitude
         fw, bw = lin.get('forward'), lin.get('inverse')
         ok = bool(fw) and bool(bw) and fw[0] is not None and bw[0] is not None and \
